@@ -50,7 +50,10 @@ Inductive tx :=
 | DeclareV3 (q : bool) (sender nonce : Z) (c : v3c) (acct_deploy : list Z) (class_hash compiled : Z)
 | DeployAccountV1 (q : bool) (contract maxfee nonce class_hash salt : Z) (ctor : list Z)
 | DeployAccountV3 (q : bool) (contract nonce : Z) (c : v3c) (ctor : list Z) (class_hash salt : Z)
-| L1Handler (q : bool) (contract selector nonce : Z) (calldata : list Z).
+| L1Handler (q : bool) (contract selector nonce : Z) (calldata : list Z)
+(* kinds whose hash juno does not recompute (core.TransactionHash returns the declared hash): Deploy,
+   Declare v0, L1 handler without nonce. Only "has a signature" and "is an invoke" matter downstream. *)
+| Unverified (has_sig : bool).
 
 (* the version felt: the number, plus 2^128 when the query bit is set (Version.AsFelt is hashed as is) *)
 Definition ver_felt (v : Z) (q : bool) : term := TC (v + (if q then 2^128 else 0)).
@@ -89,6 +92,7 @@ Definition tx_hash (chain : Z) (t : tx) : term :=
              TC nonce; TC (da_pack (v_fee_da c) (v_nonce_da c)); TPosN (tcs ctor); TC ch; TC salt]
   | L1Handler q contract selector nonce calldata =>
       TPedN [TC c_l1_handler; ver_felt 0 q; TC contract; TC selector; TPedN (tcs calldata); TC 0; TC chain; TC nonce]
+  | Unverified _ => TC 0      (* never compared: see tx_hashes_ok *)
   end.
 
 (* a transaction as it travels in a block: body, signature, declared hash *)
@@ -96,7 +100,10 @@ Record txrec := { t_body : tx; t_sig : list Z; t_hash : term }.
 
 (* Transaction.Signature(): L1 handler transactions have none *)
 Definition sig_of (t : txrec) : list Z :=
-  match t_body t with L1Handler _ _ _ _ _ => [] | _ => t_sig t end.
+  match t_body t with L1Handler _ _ _ _ _ => [] | Unverified false => [] | _ => t_sig t end.
+Definition is_invoke (t : txrec) : bool :=
+  match t_body t with InvokeV0 _ _ _ _ _ | InvokeV1 _ _ _ _ _ | InvokeV3 _ _ _ _ _ _ _ => true | _ => false end.
+Definition is_unverified (t : txrec) : bool := match t_body t with Unverified _ => true | _ => false end.
 
 (* ---------- commitment tries: height 64, keyed by the index ---------- *)
 Definition CH := 64%nat.
@@ -143,6 +150,17 @@ Definition block_events (rs : list receipt) : list (term * event) :=
   flat_map (fun r => map (fun e => (r_txhash r, e)) (r_events r)) rs.
 Definition event_commitment (rs : list receipt) : term :=
   commit_root TPos2 (map (fun te => event_hash (fst te) (snd te)) (block_events rs)).
+
+(* transactionCommitmentPedersen (block version < 0.13.2): H(tx hash, H(signature)); before 0.11.1 only invoke
+   transactions contribute their signature *)
+Definition tx_leaf_ped (v0111 : bool) (t : txrec) : term :=
+  TPed (t_hash t) (TPedN (tcs (if v0111 || is_invoke t then sig_of t else []))).
+Definition tx_commitment_ped (v0111 : bool) (txs : list txrec) : term := commit_root TPed (map (tx_leaf_ped v0111) txs).
+
+(* eventCommitmentPedersen: the transaction hash is NOT part of the leaf *)
+Definition event_hash_ped (e : event) : term := TPedN [TC (e_from e); TPedN (tcs (e_keys e)); TPedN (tcs (e_data e))].
+Definition event_commitment_ped (rs : list receipt) : term :=
+  commit_root TPed (map (fun te => event_hash_ped (snd te)) (block_events rs)).
 
 (* ---------- state diff ---------- *)
 (* Go maps are unordered; every section is hashed in ascending key order (sortedFeltKeys). The model
@@ -269,12 +287,21 @@ Definition ver_ge (v w : Z * Z * Z) : bool :=
   let '(a, b, c) := v in let '(x, y, z) := w in
   (x <? a) || ((x =? a) && ((y <? b) || ((y =? b) && (z <=? c)))).
 
-(* core.BlockHash dispatch; older formats are outside the model *)
+(* post07Hash: block version < 0.13.2 and number >= network.First07Block (0 on Sepolia and the integration
+   networks; the pre-0.7 format of early mainnet / goerli blocks is outside the model). Version string, gas
+   prices, DA mode, receipts and the state diff are NOT hashed; the sequencer address is assumed present. *)
+Definition block_hash_post07 (b : block) : term :=
+  let h := b_hdr b in
+  TPedN [TC (h_number h); h_state_root h; TC (h_sequencer h); TC (h_timestamp h); TC (h_tx_count h);
+         tx_commitment_ped (ver_ge (h_ver h) (0, 11, 1)) (b_txs b); TC (h_event_count h);
+         event_commitment_ped (b_rcpts b); TC 0; TC 0; h_parent h].
+
+(* core.BlockHash dispatch *)
 Definition block_hash (b : block) : option term :=
   let v := h_ver (b_hdr b) in
   if ver_ge v (0, 13, 4) then Some (block_hash_0134 b)
   else if ver_ge v (0, 13, 2) then Some (block_hash_0132 b)
-  else None.
+  else Some (block_hash_post07 b).
 
 (* CheckBlockVersion: major < 0 or (major = 0 and minor <= 14) *)
 Definition version_supported (v : Z * Z * Z) : bool :=
@@ -314,11 +341,12 @@ Fixpoint term_eqb (a b : term) : bool :=
 (* ---------- acceptance: SanityCheckNewHeight + Store ---------- *)
 Record chain_state := {
   cs_head : option (Z * term);       (* number and hash of the head; None = empty chain *)
+  cs_root : term;                    (* GlobalStateRoot stored in the head's header; 0 for the empty chain *)
   cs_state : state;                  (* the head state (C01.State) *)
   cs_blocks : list block             (* everything stored, newest first *)
 }.
 
-Definition empty_chain : chain_state := {| cs_head := None; cs_state := empty_state; cs_blocks := [] |}.
+Definition empty_chain : chain_state := {| cs_head := None; cs_root := TC 0; cs_state := empty_state; cs_blocks := [] |}.
 
 (* verifyBlockSuccession *)
 Definition succession_ok (cs : chain_state) (b : block) : bool :=
@@ -335,8 +363,11 @@ Fixpoint receipts_match (txs : list txrec) (rs : list receipt) : bool :=
   | t :: txs', r :: rs' => term_eqb (t_hash t) (r_txhash r) && receipts_match txs' rs'
   | _, _ => false
   end.
-Definition tx_hashes_ok (chain : Z) (txs : list txrec) : bool :=
-  forallb (fun t => term_eqb (tx_hash chain (t_body t)) (t_hash t)) txs.
+(* VerifyTransactions: nothing is recomputed for block versions below 0.11.0, nor for the unverified kinds *)
+Definition tx_verified (b : block) : bool := ver_ge (h_ver (b_hdr b)) (0, 11, 0).
+Definition tx_hashes_ok (chain : Z) (b : block) : bool :=
+  negb (tx_verified b) ||
+  forallb (fun t => is_unverified t || term_eqb (tx_hash chain (t_body t)) (t_hash t)) (b_txs b).
 Definition block_hash_ok (b : block) : bool :=
   match block_hash b with Some h => term_eqb h (b_hash b) | None => false end.
 
@@ -345,19 +376,50 @@ Definition pre_0_14 (b : block) : bool := negb (ver_ge (h_ver (b_hdr b)) (0, 14,
 (* state.Update: the state the node holds must have root OldRoot; the diff applied to it must give the
    declared root (GlobalStateRoot = StateUpdate.NewRoot, compared in SanityCheckNewHeight) *)
 Definition new_state (cs : chain_state) (b : block) : state := apply_diff true (cs_state cs) (to_diff (b_diff b)).
-Definition roots_ok (cs : chain_state) (b : block) : bool :=
+(* [strict] = the new state backend (core/state), whose Store first requires StateUpdate.OldRoot to be the
+   root recorded in the head's header (verifyOldRootMatchesHead); both backends then require OldRoot to be
+   the commitment of the state they hold, computed under the NEW block's protocol version (verifyComm /
+   verifyStateUpdateRoot). The two coincide except when a chain crosses 0.14.0 with an empty class trie. *)
+Definition roots_ok (strict : bool) (cs : chain_state) (b : block) : bool :=
+  (if strict then term_eqb (b_old_root b) (cs_root cs) else true) &&
   term_eqb (commitment (pre_0_14 b) (cs_state cs)) (b_old_root b) &&
   term_eqb (commitment (pre_0_14 b) (new_state cs b)) (h_state_root (b_hdr b)).
 
-Definition accept (chain : Z) (cs : chain_state) (b : block) : option chain_state :=
-  if receipts_match (b_txs b) (b_rcpts b) && tx_hashes_ok chain (b_txs b) && block_hash_ok b
-     && succession_ok cs b && roots_ok cs b
+Definition accept (chain : Z) (strict : bool) (cs : chain_state) (b : block) : option chain_state :=
+  if receipts_match (b_txs b) (b_rcpts b) && tx_hashes_ok chain b && block_hash_ok b
+     && succession_ok cs b && roots_ok strict cs b
   then Some {| cs_head := Some (h_number (b_hdr b), b_hash b);
+               cs_root := h_state_root (b_hdr b);
                cs_state := new_state cs b;
                cs_blocks := b :: cs_blocks cs |}
   else None.
 
 (* store a sequence of blocks; rejected blocks leave the chain as it is *)
-Definition push (chain : Z) (cs : chain_state) (b : block) : chain_state :=
-  match accept chain cs b with Some cs' => cs' | None => cs end.
-Definition run (chain : Z) (bs : list block) : chain_state := fold_left (push chain) bs empty_chain.
+Definition push (chain : Z) (strict : bool) (cs : chain_state) (b : block) : chain_state :=
+  match accept chain strict cs b with Some cs' => cs' | None => cs end.
+Definition run (chain : Z) (strict : bool) (bs : list block) : chain_state := fold_left (push chain strict) bs empty_chain.
+
+(* ---------- sealing: complete a block's hashes, linkage and roots from the model (what the harness does
+   with evaluated terms; used by the non-vacuity examples) ---------- *)
+Definition seal (chain : Z) (cs : chain_state) (b : block) : block :=
+  let txs := map (fun t => {| t_body := t_body t; t_sig := t_sig t;
+                            t_hash := if is_unverified t then t_hash t else tx_hash chain (t_body t) |}) (b_txs b) in
+  let rs := map (fun tr => let r := snd tr in
+                  {| r_txhash := t_hash (fst tr); r_fee := r_fee r; r_msgs := r_msgs r; r_revert := r_revert r;
+                     r_l1gas := r_l1gas r; r_l1datagas := r_l1datagas r; r_events := r_events r |})
+                (combine txs (b_rcpts b)) in
+  let h := b_hdr b in
+  let '(num, par) := match cs_head cs with None => (0, TC 0) | Some (n, hh) => (n + 1, hh) end in
+  let hdr := {| h_number := num; h_state_root := commitment (pre_0_14 b) (new_state cs b);
+                h_sequencer := h_sequencer h; h_timestamp := h_timestamp h; h_tx_count := h_tx_count h;
+                h_event_count := h_event_count h; h_blob := h_blob h;
+                h_l1_gas_wei := h_l1_gas_wei h; h_l1_gas_fri := h_l1_gas_fri h; h_l1_data_wei := h_l1_data_wei h;
+                h_l1_data_fri := h_l1_data_fri h; h_l2_wei := h_l2_wei h; h_l2_fri := h_l2_fri h;
+                h_version_str := h_version_str h; h_ver := h_ver h; h_parent := par |} in
+  let b1 := {| b_hdr := hdr; b_txs := txs; b_rcpts := rs; b_diff := b_diff b; b_hash := TC 0;
+               b_old_root := commitment (pre_0_14 b) (cs_state cs) |} in
+  match block_hash b1 with
+  | Some hh => {| b_hdr := hdr; b_txs := txs; b_rcpts := rs; b_diff := b_diff b; b_hash := hh;
+                  b_old_root := b_old_root b1 |}
+  | None => b1
+  end.
